@@ -300,7 +300,7 @@ func (r *run) wsHandler(w http.ResponseWriter, req *http.Request) {
 		case <-req.Context().Done():
 		case <-r.finished:
 		}
-	case "accept":
+	case "accept", "accepthang":
 		c, err := upgrader.Upgrade(w, req, nil)
 		if err != nil {
 			return
@@ -358,9 +358,39 @@ func (r *run) serveConn(c *websocket.Conn, a *attempt, st Step) {
 		a.k = len(a.ackSeq)
 		r.mu.Unlock()
 		got++
-		if cancelHere && got == r.c.Cancel.J {
+		if cancelHere && got == r.c.Cancel.J && st.W != "accepthang" {
 			r.doCancel(false)
 		}
+	}
+	if st.W == "accepthang" {
+		// go silent: no more websocket reads (so no automatic answer to a close frame), nothing sent.
+		// Only the raw socket is watched, to see when the client's side of the TCP connection ends.
+		raw := c.UnderlyingConn()
+		if cancelHere {
+			time.Sleep(20 * time.Millisecond)
+			r.doCancel(false)
+		}
+		buf := make([]byte, 4096)
+		_ = raw.SetReadDeadline(time.Now().Add(3 * time.Second))
+		for {
+			if _, err := raw.Read(buf); err != nil {
+				if ne, ok := err.(net.Error); !(ok && ne.Timeout()) {
+					r.mu.Lock()
+					if r.connClosed.IsZero() {
+						r.connClosed = time.Now()
+					}
+					r.mu.Unlock()
+				}
+				break
+			}
+		}
+		r.mu.Lock()
+		closed := !r.connClosed.IsZero()
+		r.mu.Unlock()
+		if !closed {
+			<-r.finished // the client never closed: keep the connection until the run is over
+		}
+		return
 	}
 	if cancelHere { // cancelled earlier in this connection: watch for the client closing it
 		_ = c.SetReadDeadline(time.Now().Add(2 * time.Second))
@@ -547,6 +577,9 @@ WAIT:
 	prevStart, prevEnd := r.launch, r.launch
 	for _, a := range r.attempts {
 		o := Obs{GapSS: int64(a.start.Sub(prevStart)), GapES: int64(a.start.Sub(prevEnd)), Acc: a.acc, Ws: a.ws, Est: a.est, K: a.k}
+		if a.idx == c.Cancel.I && !r.cancelAt.IsZero() && !r.connClosed.IsZero() && r.connClosed.Sub(r.cancelAt) <= time.Second {
+			o.Closed = true
+		}
 		o.Timed = !lagged(prevEnd.Add(-30*time.Millisecond), a.start.Add(30*time.Millisecond)) && !prevEnd.IsZero()
 		c.Obs = append(c.Obs, o)
 		tr.Start = append(tr.Start, rel(a.start))
